@@ -170,6 +170,7 @@ func DecodeBoxSR(startPos uint64, sr bits.SliceReader) (Box, error) {
 	}
 
 	d, ok := decodersSR[h.Name]
+	payloadStart := sr.GetPos()
 
 	if !ok {
 		b, err = DecodeUnknownSR(h, startPos, sr)
@@ -178,6 +179,11 @@ func DecodeBoxSR(startPos uint64, sr bits.SliceReader) (Box, error) {
 	}
 	if err != nil {
 		return nil, fmt.Errorf("decode %s pos %d: %w", h.Name, startPos, err)
+	}
+	// A decoder that does not need all payload bytes must not leave the reader inside the box:
+	// the enclosing container would parse the rest of the payload as boxes.
+	if boxEnd := payloadStart + h.payloadLen(); sr.GetPos() < boxEnd && boxEnd <= sr.Length() {
+		sr.SetPos(boxEnd)
 	}
 
 	return b, nil
